@@ -28,7 +28,7 @@ func TestMain(m *testing.M) {
 		"class expressions from a random class grammar (chars, ranges, shorthands, \\p{..}/\\P{..} over general categories and scripts, POSIX names under RE2, negation, subtraction nested up to depth 3) x options subsets of {IgnoreCase, ECMAScript, RE2} x ASCII bitmap on/off; rune domain = U+0000-U+024F exhaustively, every range endpoint +-1, surrogate and plane boundaries, U+10FFFF and 120 sampled code points (thorough: every code point through the parsed set); one evaluation = one (class, options, rune) compared through 7 lookup paths: CharIn of the set in the parsed tree, and MatchRunes of \\A[..]\\z, [..]+ and x*[..] on the single rune, each with and without the ASCII bitmap; non-trivial = the class has >=2 item kinds or a subtraction or a negation and the rune domain contains both members and non-members; distinct = hash of (class text, options, rune)",
 		map[string]float64{"subtraction/classes": 0.15, "negated/classes": 0.2, "ignorecase/classes": 0.15, "re2/classes": 0.1, "ecma/classes": 0.05, "prop/classes": 0.1},
 		"raw category/script membership comes from Go's unicode tables, which the engine also uses; the oracle is independent in the algebra, canonicalisation and case handling",
-		"under IgnoreCase members and the rune domain are limited to ASCII plus letters with a plain upper/lower pair; \\P{Lu|Ll|Lt} is not generated under IgnoreCase (no agreed meaning)",
+		"under IgnoreCase members and the rune domain are limited to ASCII plus letters with a plain upper/lower pair (plus complement-style classes whose gap lies in 0x21-0x5A, where folding is unambiguous); \\P{Lu|Ll|Lt} is not generated under IgnoreCase (no agreed meaning)",
 		"under IgnoreCase \\p{Lu}, \\p{Ll}, \\p{Lt} each mean the union of the three (documented in the engine's source)")
 	h.Ceiling("compile-error", 0.02)
 	h.Main(m)
@@ -54,6 +54,17 @@ func gen1(t *rapid.T) Case {
 	fix(c.Class, c)
 	if c.RE2 && rapid.IntRange(0, 1).Draw(t, "posix") == 0 {
 		c.Class.Items = append(c.Class.Items, cls.Item{Kind: cls.Posix, Name: rapid.SampledFrom([]string{"alnum", "alpha", "ascii", "blank", "cntrl", "digit", "graph", "lower", "print", "punct", "space", "upper", "word", "xdigit"}).Draw(t, "posixname"), Neg: !c.I && rapid.IntRange(0, 3).Draw(t, "posneg") == 0})
+	}
+	if c.I && !c.Class.Neg && rapid.IntRange(0, 5).Draw(t, "complementstyle") == 0 {
+		// "everything but a small gap", written positively: canonicalisation stores it as the negated gap.
+		// The gap lies in 0x21-0x5A (no lower-case letters), so case folding stays inside the agreed domain:
+		// the lower-case images of all letters are members already.
+		x := rune(rapid.IntRange(0x21, 0x58).Draw(t, "gaplo"))
+		y := x + 1 + rune(rapid.IntRange(1, int(0x5A-x)).Draw(t, "gaplen"))
+		c.Class.Items = append([]cls.Item{{Kind: cls.Range, Lo: 0, Hi: x}, {Kind: cls.Range, Lo: y, Hi: 0x10FFFF}}, c.Class.Items...)
+		if c.Class.Sub != nil && rapid.Bool().Draw(t, "dropsub") {
+			c.Class.Sub = nil
+		}
 	}
 	c.Text = c.Class.Print(c.ECMA)
 	return c
